@@ -122,10 +122,7 @@ func elemDecoder(p *load.Prog, r *report.Report, m *elemModel, dc decCase) {
 		}
 		form := map[string]tri{}
 		if dc.input == "coords" {
-			ltx, okx := known(it, absint.LT(Xu, pT))
-			lty, oky := known(it, absint.LT(Yu, pT))
-			oc, okc := known(it, onCurve)
-			form["uncompressed"] = triAnd(triOf(ltx, okx), triOf(lty, oky), triOf(oc, okc))
+			form["uncompressed"] = triConj(it, absint.LT(Xu, pT), absint.LT(Yu, pT), onCurve)
 		} else {
 			form["identity"] = triAnd(hexOK, lenTri(it, in, 1), byteIs(it, in+"[0]", 0))
 			pre := triFalse
@@ -139,13 +136,8 @@ func elemDecoder(p *load.Prog, r *report.Report, m *elemModel, dc decCase) {
 					}
 				}
 			}
-			ltx, okx := known(it, absint.LT(Xc, pT))
-			s, oks := known(it, sq)
-			form["compressed"] = triAnd(hexOK, lenTri(it, in, 33), pre, triOf(ltx, okx), triOf(s, oks))
-			ltx2, okx2 := known(it, absint.LT(Xu, pT))
-			lty, oky := known(it, absint.LT(Yu, pT))
-			oc, okc := known(it, onCurve)
-			form["uncompressed"] = triAnd(hexOK, lenTri(it, in, 65), byteIs(it, in+"[0]", 4), triOf(ltx2, okx2), triOf(lty, oky), triOf(oc, okc))
+			form["compressed"] = triAnd(hexOK, lenTri(it, in, 33), pre, triConj(it, absint.LT(Xc, pT), sq))
+			form["uncompressed"] = triAnd(hexOK, lenTri(it, in, 65), byteIs(it, in+"[0]", 4), triConj(it, absint.LT(Xu, pT), absint.LT(Yu, pT), onCurve))
 		}
 		accepted := ""
 		allFalse := true
